@@ -255,6 +255,117 @@ theorem routed_accepts_only_governance_account {σ : Type} (r : Registration) (h
     · exact absurd (routed_only_governance_string r hr sv hsv hpkg mm hmm hmsg hkind env hgov auth W payloadOk s h1
         (Or.inr h2)) hacc
 
+/-! ### handler level: the registered Msg servers called directly (no `ValidateBasic` in front) -/
+
+/-- obligation over the regenerated bodies: no implementation compares DECODED addresses — every one of them, run on its
+own receiver type, is protected by a comparison of the authority STRING with the keeper's authority string (`!=` or
+`!strings.EqualFold`).  A guard that decodes both sides first (and so accepts every spelling some decoder maps to the
+governance account: `0x…`, another prefix) makes this stop checking. -/
+theorem handlers_compare_strings :
+    C16Sem.impls.all (fun i => protectedAt prog 4 i.recv i.method == some .strict ||
+      protectedAt prog 4 i.recv i.method == some .fold) = true := by decide
+
+/-- the same for what is registered: every authority-carrying method of every registered service, resolved from the
+registered concrete type -/
+theorem registered_handlers_compare_strings :
+    C16Sem.registrations.all (fun r => C16Sem.services.all fun sv => sv.pkg != r.service ||
+      sv.methods.all fun mm => mm.2 == "" || protectedAt prog 4 r.impl mm.1 == some .strict ||
+        protectedAt prog 4 r.impl mm.1 == some .fold) = true := by decide
+
+/-- a comparison of strings (strict or case-folding) fails for every authority that is not a case-fold variant of the
+keeper's authority -/
+theorem string_guard_fails_of_not_fold (cfg : AddrCfg) (c : CmpK) (hc : c = .strict ∨ c = .fold) (gov auth : Str)
+    (h : foldEq gov auth = false) : relK cfg c gov auth = false := by
+  rcases hc with rfl | rfl
+  · simp only [relK, beq_eq_false_iff_ne, ne_eq]
+    intro he
+    subst he
+    simp [foldEq] at h
+  · simpa [relK] using h
+
+/-- HANDLER LEVEL, every implementation (the registered types and the per-chain servers behind the crosschain router):
+called directly — no `ValidateBasic`, no router — with an authority that is not a case-fold variant of the keeper's
+authority string, it returns an error and leaves the state it was given untouched; whatever the rest of any handler does,
+whichever route exists.  So `0x…`, another bech32 prefix, the validator-operator spelling, padding, the module NAME are
+refused by the handler itself, not only by the router's `ValidateBasic`. -/
+theorem handler_level_rejects_non_variants {σ : Type} (i : Impl) (hi : i ∈ C16Sem.impls)
+    (env : Env) (auth : Str) (W : World σ) (s : σ) (h : foldEq env.gov auth = false) :
+    exec prog env auth W 4 i.recv i.method s = (.err, s) := by
+  have hk := List.all_eq_true.mp handlers_compare_strings i hi
+  simp only [Bool.or_eq_true, beq_iff_eq] at hk
+  rcases hk with hp | hp
+  · exact protectedAt_sound prog env auth W .strict (string_guard_fails_of_not_fold env.cfg .strict (Or.inl rfl) _ _ h)
+      4 i.recv i.method s hp
+  · exact protectedAt_sound prog env auth W .fold (string_guard_fails_of_not_fold env.cfg .fold (Or.inr rfl) _ _ h)
+      4 i.recv i.method s hp
+
+/-- HANDLER LEVEL, what is registered: the same for every authority-carrying method of every registered Msg service,
+resolved from the registered concrete type through method promotion -/
+theorem registered_handler_level_rejects_non_variants {σ : Type} (r : Registration) (hr : r ∈ C16Sem.registrations)
+    (sv : Service) (hsv : sv ∈ C16Sem.services) (hpkg : sv.pkg = r.service)
+    (mm : String × String) (hmm : mm ∈ sv.methods) (hmsg : mm.2 ≠ "")
+    (env : Env) (auth : Str) (W : World σ) (s : σ) (h : foldEq env.gov auth = false) :
+    exec prog env auth W 4 r.impl mm.1 s = (.err, s) := by
+  have h1 := List.all_eq_true.mp registered_handlers_compare_strings r hr
+  have h2 := List.all_eq_true.mp h1 sv hsv
+  simp only [hpkg, bne_self_eq_false, Bool.false_or] at h2
+  have h3 := List.all_eq_true.mp h2 mm hmm
+  have hne : (mm.2 == "") = false := by simpa using hmsg
+  simp only [hne, Bool.false_or, Bool.or_eq_true, beq_iff_eq] at h3
+  rcases h3 with hp | hp
+  · exact protectedAt_sound prog env auth W .strict (string_guard_fails_of_not_fold env.cfg .strict (Or.inl rfl) _ _ h)
+      4 r.impl mm.1 s hp
+  · exact protectedAt_sound prog env auth W .fold (string_guard_fails_of_not_fold env.cfg .fold (Or.inr rfl) _ _ h)
+      4 r.impl mm.1 s hp
+
+/-- the strictly comparing implementations refuse even the case variants at handler level -/
+theorem handler_level_strict_exact {σ : Type} (T m : String) (hp : protectedAt prog 4 T m = some .strict)
+    (env : Env) (auth : Str) (W : World σ) (s : σ) (h : auth ≠ env.gov) :
+    exec prog env auth W 4 T m s = (.err, s) := by
+  apply protectedAt_sound prog env auth W .strict _ 4 T m s hp
+  simp only [relK, beq_eq_false_iff_ne, ne_eq]
+  exact fun he => h he.symm
+
+/-- with the obligation above the two router-level theorems need no side condition on the comparison kind -/
+theorem routed_accepts_only_governance_account_all {σ : Type} (r : Registration) (hr : r ∈ C16Sem.registrations)
+    (sv : Service) (hsv : sv ∈ C16Sem.services) (hpkg : sv.pkg = r.service)
+    (mm : String × String) (hmm : mm ∈ sv.methods) (hmsg : mm.2 ≠ "")
+    (env : Env) (hgov : lowerAsciiStr env.gov = true) (auth : Str) (W : World σ) (payloadOk : Bool) (s : σ)
+    (hacc : routed prog C16Sem.msgInfos env auth W payloadOk r.impl mm.1 mm.2 s ≠ (.err, s)) :
+    accAddress env.cfg auth = accAddress env.cfg env.gov := by
+  have h1 := List.all_eq_true.mp registered_handlers_compare_strings r hr
+  have h2 := List.all_eq_true.mp h1 sv hsv
+  simp only [hpkg, bne_self_eq_false, Bool.false_or] at h2
+  have h3 := List.all_eq_true.mp h2 mm hmm
+  have hne : (mm.2 == "") = false := by simpa using hmsg
+  simp only [hne, Bool.false_or, Bool.or_eq_true, beq_iff_eq] at h3
+  have hkind : protectedAt prog 4 r.impl mm.1 ≠ some .addr := by
+    rcases h3 with hp | hp <;> rw [hp] <;> simp
+  exact routed_accepts_only_governance_account r hr sv hsv hpkg mm hmm hmsg hkind env hgov auth W payloadOk s hacc
+
+/-- the crosschain router: without a route for the message's chain the forwarding implementation errors with the state
+untouched, before any per-chain server runs -/
+theorem no_route_rejected {σ : Type} (P : Program) (env : Env) (auth : Str) (W : World σ) (f : Nat) (T m : String) (s : σ)
+    (hn : needsRoute P T m = true) (hr : W.routeOk = false) : exec P env auth W (f + 1) T m s = (.err, s) := by
+  unfold needsRoute at hn
+  simp only [exec]
+  cases hres : resolve P T m with
+  | none => simp [hres] at hn
+  | some impl =>
+    simp only [hres] at hn ⊢
+    generalize impl.body = body at hn
+    induction body with
+    | nil => simp [needsRouteBody] at hn
+    | cons st rest ih =>
+      cases st with
+      | nop _ => simp only [needsRouteBody] at hn; simp only [execBody]; exact ih hn
+      | forward nr ts m' =>
+        cases nr with
+        | true => simp [execBody, hr]
+        | false => simp [needsRouteBody] at hn
+      | rejectIf _ => simp [needsRouteBody] at hn
+      | work _ _ => simp [needsRouteBody] at hn
+
 /-- the guard is not vacuous: with the keeper's authority itself a guarded body runs its rest -/
 theorem gov_authority_passes_guard {σ : Type} (i : Impl) (hi : i ∈ C16Sem.impls) (g : BExpr) (rest : List Stmt)
     (hb : i.body = .rejectIf g :: rest) (env : Env) (W : World σ) (call : String → String → σ → Res × σ) (s : σ) :
@@ -474,6 +585,10 @@ example : ∃ gov auth : List Char, lowerAscii gov ≠ lowerAscii auth := ⟨['a
 example : updateStore ['g'] ['g'] [⟨true, [1], [], [7]⟩] [] = (.ok, [([1], [7])]) := by decide
 
 example : C16Sem.impls.length ≥ 11 := by decide
+example : ∃ gov auth : Str, foldEq gov auth = false := ⟨[103], [48, 120], by decide⟩
+example : needsRoute prog "x/crosschain/keeper.msgServer" "UpdateParams" = true := by decide
+example : needsRoute prog "x/crosschain/keeper.MsgServer" "UpdateParams" = false := by decide
+example : C16Sem.impls.any (fun i => protectedAt prog 4 i.recv i.method == some .fold) = true := by decide
 example : protectedAt prog 4 "x/crosschain/keeper.msgServer" "UpdateParams" = some .strict := by decide
 example : protectedAt prog 4 "x/evm/keeper.Keeper" "CallContract" = some .fold := by decide
 example : (runProg ["erc20"] C16Sem.updateStoreProg [⟨"erc20", [1], [], [7]⟩, ⟨"erc20", [1], [7], [8]⟩] []).1 = true := by decide
